@@ -39,7 +39,13 @@ func c05Verdicts(t *verifrt.T, doc []byte, accepted bool) {
 	t.Known("D3-number-forms-outside-RFC-accepted", and(accepted, !strict, num))
 	t.Known("D4-raw-control-character-in-string-accepted", and(accepted, !strict, ctrl))
 	t.Assert("accept-only-listed-language", implies(accepted, lax))
-	t.Assert("valid-json-accepted", implies(strict, accepted))
+	// a number outside the float64 range is an error for this destination in encoding/json too
+	inRange := true
+	if strict {
+		inRange = !verifref.NumberOutOfRange(doc)
+	}
+	t.Assert("valid-json-accepted", implies(verifrt.And(strict, inRange), accepted))
+	t.Cover("out-of-range-number-rejected", verifrt.And(strict, !inRange, !accepted))
 	t.Cover("accepted-valid", and(accepted, strict))
 	t.Cover("rejected-invalid", and(!accepted, !lax))
 }
